@@ -1,9 +1,746 @@
-//! C06 — (module under construction)
-use crate::report::{Coverage, Reporter};
-use serde_json::Value;
+//! C06 — related-text search returns exactly the selections in the relation.
+//!
+//! Bounded-exhaustive enumeration: for every text of a small family, resources in which ALL
+//! `(L+1)(L+2)/2` ranges are known text selections (one annotation each, inserted in ascending and in
+//! descending order) and all sparse resources holding only {reference, one candidate} / {one candidate}
+//! (reference unbound); every reference range, every ordered 2-element set of ranges; every one of the
+//! ten relations of the statement x `all` x `negate` x limit in {none,0,1,2} x whitespace.
+//!
+//! Oracle: the library's own relation test (`reference.test(op, candidate)`, resp. `set.test(op, candidate)`)
+//! applied to every known selection of the resource (C13 decides whether that test is right). The search must
+//! return exactly the known selections other than the reference for which the test holds (Equals: including the
+//! reference), each once, with non-decreasing begin position (textual order).
+//!
+//! Entry points: `ResultTextSelection::related_text` (primary for single references),
+//! `ResultTextSelectionSet::related_text` (primary for sets); `ResultItem<TextSelection>::related_text`,
+//! `ResultItem<TextResource>::related_text`, `ResultItem<Annotation>::related_text` must agree with the primary.
+//!
+//! Signatures (coarse to fine, so that `prefix*` patterns in KNOWN_FINDINGS.txt can cover a family):
+//! `<sel|sel:bound|sel:unbound|set>|<operator+modifiers>|<missing|extra|extra:reference-itself|duplicate|order|unknown-selection|panic:..>|br=<branch>|<position class>`
+//! where branch = reference begin vs textlen/2 (`lt|eq|gt`, sets: `first|second|mixed`, `na` for relations whose
+//! search does not branch on it) and the position class is described at `pos_class`. None of the fields depends
+//! on the text length, so the set of failing signatures is the same in both tiers (quick is a subset of thorough).
+//! Entry-point disagreements: `entry-disagree|<entry>-vs-<primary>|<operator>`.
 
-pub fn run(_rep: &Reporter) -> Coverage {
-    Coverage::default()
+use crate::c13::{all_ops, OpSpec, Rel};
+use crate::report::{Coverage, Reporter, Tier};
+use crate::util::{all_ranges, catch, msg_class, order_type};
+use rayon::prelude::*;
+use serde_json::{json, Value};
+use stam::*;
+use std::sync::atomic::{AtomicU64, Ordering};
+
+type R = (usize, usize);
+
+const LIMITS: [Option<usize>; 4] = [None, Some(0), Some(1), Some(2)];
+/// mirror of the private constant `WHITESPACE_LIMIT` in src/textselection.rs (only used to *classify* failures)
+const WS_LIMIT: i64 = 10;
+/// results longer than this are treated as a non-terminating iterator
+const RESULT_CAP: usize = 20_000;
+
+/// The ten relations of the statement with every modifier combination. `Equals{all:true}` is left out: the
+/// set-level relation test itself hits `unreachable!()` for it (a C13 finding), so there is no oracle.
+pub fn ops() -> Vec<OpSpec> {
+    all_ops(&LIMITS)
+        .into_iter()
+        .filter(|o| !matches!(o.rel, Rel::InSet | Rel::SameRange))
+        .filter(|o| !(o.rel == Rel::Equals && o.all))
+        .collect()
 }
 
-pub fn replay(_rep: &Reporter, _case: &Value) {}
+fn base_text(len: usize) -> String {
+    // whitespace runs of length 1, 2 and 3 so that the whitespace modifier has something to accept and to reject
+    "a  b c   de f".chars().cycle().take(len).collect()
+}
+
+pub struct Res {
+    pub text: String,
+    pub len: usize,
+    /// known ranges in insertion order
+    pub known: Vec<R>,
+    /// annotations with a MultiSelector over two ranges: (id, members)
+    pub multis: Vec<(String, [R; 2])>,
+    pub store: AnnotationStore,
+}
+
+fn ann_id(r: R) -> String {
+    format!("a{}_{}", r.0, r.1)
+}
+
+pub fn build(text: &str, known: &[R], multis: &[[R; 2]]) -> Result<Res, String> {
+    let r = catch(|| -> Result<AnnotationStore, String> {
+        let mut store = AnnotationStore::default();
+        store
+            .add_resource(TextResourceBuilder::new().with_id("r").with_text(text))
+            .map_err(|e| format!("add_resource: {}", e))?;
+        for k in known {
+            store
+                .annotate(
+                    AnnotationBuilder::new()
+                        .with_id(ann_id(*k))
+                        .with_target(SelectorBuilder::textselector("r", Offset::simple(k.0, k.1))),
+                )
+                .map_err(|e| format!("annotate {:?}: {}", k, e))?;
+        }
+        for (i, m) in multis.iter().enumerate() {
+            store
+                .annotate(
+                    AnnotationBuilder::new().with_id(format!("m{}", i)).with_target(SelectorBuilder::multiselector(
+                        m.iter()
+                            .map(|r| SelectorBuilder::textselector("r", Offset::simple(r.0, r.1)))
+                            .collect::<Vec<_>>(),
+                    )),
+                )
+                .map_err(|e| format!("annotate multi {:?}: {}", m, e))?;
+        }
+        Ok(store)
+    });
+    let store = match r {
+        Ok(Ok(s)) => s,
+        Ok(Err(e)) => return Err(e),
+        Err(p) => return Err(format!("panic: {}", p)),
+    };
+    Ok(Res {
+        text: text.to_string(),
+        len: text.chars().count(),
+        known: known.to_vec(),
+        multis: multis.iter().enumerate().map(|(i, m)| (format!("m{}", i), *m)).collect(),
+        store,
+    })
+}
+
+fn sel<'s>(store: &'s AnnotationStore, r: R) -> ResultTextSelection<'s> {
+    store
+        .resource("r")
+        .expect("resource r")
+        .textselection(&Offset::simple(r.0, r.1))
+        .expect("range must be valid")
+}
+
+#[derive(Clone, Copy, Debug, PartialEq, Eq)]
+pub enum Entry {
+    /// `ResultTextSelection::related_text`
+    Sel,
+    /// `ResultItem<TextSelection>::related_text` (bound references only)
+    Item,
+    /// `ResultItem<TextResource>::related_text(op, selection)`
+    ResSel,
+    /// `ResultTextSelectionSet::related_text`
+    Set,
+    /// `ResultItem<TextResource>::related_text(op, set)`
+    ResSet,
+    /// `ResultItem<Annotation>::related_text` (annotation id given separately)
+    Ann,
+}
+
+fn collect<'s>(it: impl Iterator<Item = ResultTextSelection<'s>>) -> Vec<R> {
+    it.take(RESULT_CAP + 1).map(|t| (t.begin(), t.end())).collect()
+}
+
+/// Run the search through one entry point. `None` = entry point not applicable to this reference.
+fn search(store: &AnnotationStore, refr: &[R], op: &OpSpec, entry: Entry, ann: Option<&str>) -> Option<Result<Vec<R>, String>> {
+    let o = op.to_op();
+    let r = match entry {
+        Entry::Sel => {
+            let s = sel(store, refr[0]);
+            catch(|| collect(s.related_text(o)))
+        }
+        Entry::Item => {
+            let s = sel(store, refr[0]);
+            let item = s.as_resultitem()?.clone();
+            catch(|| collect(item.related_text(o)))
+        }
+        Entry::ResSel => {
+            let s = sel(store, refr[0]);
+            let res = store.resource("r").unwrap();
+            catch(|| collect(res.related_text(o, s)))
+        }
+        Entry::Set => {
+            let set: ResultTextSelectionSet = refr.iter().map(|r| sel(store, *r)).collect();
+            catch(|| collect(set.related_text(o)))
+        }
+        Entry::ResSet => {
+            let set: ResultTextSelectionSet = refr.iter().map(|r| sel(store, *r)).collect();
+            let res = store.resource("r").unwrap();
+            catch(|| collect(res.related_text(o, set)))
+        }
+        Entry::Ann => {
+            let a = store.annotation(ann?)?;
+            catch(|| collect(a.related_text(o)))
+        }
+    };
+    Some(r.map_err(|m| msg_class(&m)))
+}
+
+/// The library's own relation test of the reference against every candidate.
+fn oracle(store: &AnnotationStore, refr: &[R], op: &OpSpec, cands: &[ResultTextSelection]) -> Result<Vec<bool>, String> {
+    let o = op.to_op();
+    if refr.len() == 1 {
+        let s = sel(store, refr[0]);
+        catch(|| cands.iter().map(|c| s.test(&o, c)).collect()).map_err(|m| msg_class(&m))
+    } else {
+        let set: ResultTextSelectionSet = refr.iter().map(|r| sel(store, *r)).collect();
+        catch(|| cands.iter().map(|c| set.test(&o, c)).collect()).map_err(|m| msg_class(&m))
+    }
+}
+
+fn cls(a: i64, b: i64) -> char {
+    if a < b {
+        '<'
+    } else if a == b {
+        '='
+    } else {
+        '>'
+    }
+}
+
+fn branching(rel: Rel) -> bool {
+    matches!(rel, Rel::Overlaps | Rel::Embedded)
+}
+
+/// Branch class of the reference: begin of each member relative to the middle of the text
+/// (the search chooses window and direction from this for Overlaps / Embedded).
+fn branch_class(op: &OpSpec, refr: &[R], len: usize) -> String {
+    if !branching(op.rel) {
+        return "na".into();
+    }
+    let h = len / 2;
+    if refr.len() > 1 {
+        // sets: only which branch of the search (`begin <= textlen/2`) the members take
+        let first = refr.iter().filter(|r| r.0 <= h).count();
+        return if first == refr.len() { "first".into() } else if first == 0 { "second".into() } else { "mixed".into() };
+    }
+    match refr[0].0.cmp(&h) {
+        std::cmp::Ordering::Less => "lt".into(),
+        std::cmp::Ordering::Equal => "eq".into(),
+        std::cmp::Ordering::Greater => "gt".into(),
+    }
+}
+
+fn hull(refr: &[R]) -> R {
+    (refr.iter().map(|r| r.0).min().unwrap(), refr.iter().map(|r| r.1).max().unwrap())
+}
+
+fn refkind(res: &Res, refr: &[R], op: &OpSpec) -> String {
+    if refr.len() == 1 {
+        // bound and unbound references share their geometry; only the Equals shortcut treats them differently
+        if op.rel == Rel::Equals {
+            if res.known.contains(&refr[0]) { "sel:bound".into() } else { "sel:unbound".into() }
+        } else {
+            "sel".into()
+        }
+    } else {
+        "set".into()
+    }
+}
+
+/// Coarse (Allen-style) position of a candidate relative to the hull of a reference set.
+fn coarse_rel(h: R, c: R) -> &'static str {
+    if c == h {
+        "same"
+    } else if c.1 <= h.0 {
+        "left"
+    } else if c.0 >= h.1 {
+        "right"
+    } else if c.0 >= h.0 && c.1 <= h.1 {
+        "inside"
+    } else if c.0 <= h.0 && c.1 >= h.1 {
+        "covers"
+    } else if c.0 < h.0 {
+        "crosses-begin"
+    } else {
+        "crosses-end"
+    }
+}
+
+/// Position class of a candidate relative to the reference.
+/// * single reference, positive operator: order type of (ref.begin, ref.end, cand.begin, cand.end, [textlen/2,] textlen)
+///   (textlen/2 only for the relations whose search branches on it) plus limit / whitespace-window classes;
+/// * single reference, negated operator: order type of (ref.begin, ref.end, cand.begin, cand.end) and whether the
+///   candidate begins at the very end of the text (the negated search inherits the positive window, so a finer class
+///   would only enumerate the complement of that window);
+/// * set reference: coarse position relative to the hull of the set, zero-width / end-of-text flags.
+fn pos_class(op: &OpSpec, refr: &[R], c: R, len: usize) -> String {
+    let (hb, he) = hull(refr);
+    if refr.len() > 1 {
+        let mut s = format!("c={}", coarse_rel((hb, he), c));
+        if c.0 == c.1 {
+            s.push_str("|cz");
+        }
+        if c.0 == len {
+            s.push_str("|cb=L");
+        }
+        return s;
+    }
+    let (hb, he, cb, ce, l) = (hb as i64, he as i64, c.0 as i64, c.1 as i64, len as i64);
+    if op.negate {
+        let mut s = format!("ot4={}", order_type(&[hb, he, cb, ce]));
+        if cb == l {
+            s.push_str("|cb=L");
+        }
+        return s;
+    }
+    let mut s = if branching(op.rel) {
+        format!("ot6={}", order_type(&[hb, he, cb, ce, l / 2, l]))
+    } else {
+        format!("ot5={}", order_type(&[hb, he, cb, ce, l]))
+    };
+    if let Some(lim) = op.limit {
+        let lim = lim as i64;
+        match op.rel {
+            Rel::Before => s.push_str(&format!("|cb{}re+lim", cls(cb, he + lim))),
+            Rel::After => s.push_str(&format!("|cb{}rb-lim|ce{}rb-lim", cls(cb, hb - lim), cls(ce, hb - lim))),
+            Rel::Embedded => s.push_str(&format!("|cb{}rb-lim|ce{}re+lim", cls(cb, hb - lim), cls(ce, he + lim))),
+            _ => {}
+        }
+    }
+    if op.ws {
+        match op.rel {
+            Rel::Precedes if cb > he + WS_LIMIT => s.push_str("|gap>10"),
+            Rel::Succeeds if ce < hb - WS_LIMIT => s.push_str("|gap>10"),
+            _ => {}
+        }
+    }
+    s
+}
+
+pub struct CaseOut {
+    pub evals: u64,
+    pub expected: Vec<R>,
+    pub got: Result<Vec<R>, String>,
+    pub skipped: bool,
+}
+
+fn case_json(res: &Res, refr: &[R], op: &OpSpec) -> Value {
+    json!({"text": res.text, "known": res.known, "multis": res.multis.iter().map(|m| m.1.to_vec()).collect::<Vec<_>>(),
+           "ref": refr, "op": op.to_json()})
+}
+
+/// One case = (resource, reference, operator): primary search against the oracle, then entry-point agreement.
+pub fn check_case(rep: &Reporter, res: &Res, cands: &[ResultTextSelection], refr: &[R], op: &OpSpec, ord: u64) -> CaseOut {
+    let store = &res.store;
+    let mut evals = 0u64;
+    let primary = if refr.len() == 1 { Entry::Sel } else { Entry::Set };
+    let kind = refkind(res, refr, op);
+    let br = branch_class(op, refr, res.len);
+    let detail_head = || format!("text={:?} known={} ref={:?} op={}", res.text, fmt_known(&res.known, res.len), refr, op.name());
+    // oracle first: if the relation test itself panics there is nothing to compare with (C13's business)
+    let verdicts = oracle(store, refr, op, cands);
+    evals += cands.len() as u64;
+    let got = search(store, refr, op, primary, None).unwrap();
+    evals += 1;
+    let verdicts = match verdicts {
+        Ok(v) => v,
+        Err(_) => {
+            return CaseOut { evals, expected: vec![], got, skipped: true };
+        }
+    };
+    let equals_multi = op.rel == Rel::Equals && refr.len() > 1;
+    // expected[i]: Some(true/false) or None = not pinned down
+    let expected: Vec<Option<bool>> = res
+        .known
+        .iter()
+        .zip(verdicts.iter())
+        .map(|(c, v)| {
+            if refr.contains(c) {
+                if op.rel == Rel::Equals {
+                    if refr.len() == 1 { Some(*v) } else { None }
+                } else {
+                    Some(false) // "other" selections only
+                }
+            } else {
+                Some(*v)
+            }
+        })
+        .collect();
+    let mut exp_list: Vec<R> = res.known.iter().zip(expected.iter()).filter(|(_, e)| **e == Some(true)).map(|(c, _)| *c).collect();
+    exp_list.sort();
+    let fail = |symptom: &str, c: Option<R>, what: String| {
+        let sig = match c {
+            Some(c) => format!("{}|{}|{}|br={}|{}", kind, op.name(), symptom, br, pos_class(op, refr, c, res.len)),
+            None => format!("{}|{}|{}|br={}", kind, op.name(), symptom, br),
+        };
+        rep.fail(
+            &sig,
+            ord,
+            || format!("{}: {}; expected={:?} got={:?}", detail_head(), what, exp_list, got),
+            || case_json(res, refr, op),
+        );
+    };
+    match &got {
+        Err(m) => fail(&format!("panic:{}", m), None, "search panicked".into()),
+        Ok(g) if g.len() > RESULT_CAP => fail("unbounded", None, format!("more than {} results", RESULT_CAP)),
+        Ok(g) => {
+            for (c, e) in res.known.iter().zip(expected.iter()) {
+                let cnt = g.iter().filter(|x| *x == c).count();
+                match e {
+                    None => {}
+                    Some(true) => {
+                        if cnt == 0 {
+                            fail("missing", Some(*c), format!("candidate {:?} satisfies the relation test but is not returned", c));
+                        } else if cnt > 1 {
+                            fail("duplicate", Some(*c), format!("candidate {:?} returned {} times", c, cnt));
+                        }
+                    }
+                    Some(false) => {
+                        if cnt > 0 {
+                            let sym = if refr.contains(c) { "extra:reference-itself" } else { "extra" };
+                            fail(sym, Some(*c), format!("candidate {:?} returned {} time(s) but must not be", c, cnt));
+                        }
+                    }
+                }
+            }
+            for x in g.iter() {
+                if !res.known.contains(x) {
+                    fail("unknown-selection", Some(*x), format!("returned {:?} which is not a known selection", x));
+                }
+            }
+            if !equals_multi {
+                for w in g.windows(2) {
+                    if w[1].0 < w[0].0 {
+                        fail("order", None, format!("{:?} returned before {:?}: not in textual order", w[0], w[1]));
+                        break;
+                    }
+                }
+            }
+        }
+    }
+    // the other entry points must behave exactly like the primary one
+    let others: &[Entry] = if refr.len() == 1 { &[Entry::Item, Entry::ResSel, Entry::Ann] } else { &[Entry::ResSet] };
+    for e in others {
+        let annid = if *e == Entry::Ann {
+            if !res.known.contains(&refr[0]) {
+                continue;
+            }
+            Some(ann_id(refr[0]))
+        } else {
+            None
+        };
+        if let Some(alt) = search(store, refr, op, *e, annid.as_deref()) {
+            evals += 1;
+            if alt != got {
+                rep.fail(
+                    &format!("entry-disagree|{:?}-vs-{:?}|{}", e, primary, op.name()),
+                    ord,
+                    || format!("{}: {:?} gives {:?} but {:?} gives {:?}", detail_head(), e, alt, primary, got),
+                    || case_json(res, refr, op),
+                );
+            }
+        }
+    }
+    CaseOut { evals, expected: exp_list, got, skipped: false }
+}
+
+/// `ResultItem<Annotation>::related_text` on an annotation with a MultiSelector must equal
+/// `ResultTextSelectionSet::related_text` on the set of that annotation's text selections.
+fn check_multi_ann(rep: &Reporter, res: &Res, idx: usize, op: &OpSpec, ord: u64) -> u64 {
+    let store = &res.store;
+    let (id, members) = &res.multis[idx];
+    let ann = match store.annotation(id.as_str()) {
+        Some(a) => a,
+        None => return 0,
+    };
+    let order: Vec<R> = match catch(|| ann.textselections().map(|t| (t.begin(), t.end())).collect::<Vec<R>>()) {
+        Ok(v) if !v.is_empty() => v,
+        _ => return 0,
+    };
+    let a = search(store, members, op, Entry::Ann, Some(id.as_str())).unwrap();
+    let s = search(store, &order, op, Entry::Set, None).unwrap();
+    if a != s {
+        rep.fail(
+            &format!("entry-disagree|Ann-vs-Set|{}", op.name()),
+            ord,
+            || format!("text={:?} dense resource, annotation on {:?} op={}: annotation.related_text gives {:?} but the set of its text selections gives {:?}", res.text, members, op.name(), a, s),
+            || {
+                let mut c = case_json(res, &order, op);
+                c["multi_index"] = json!(idx);
+                c
+            },
+        );
+    }
+    2
+}
+
+fn fmt_known(known: &[R], len: usize) -> String {
+    if known.len() == (len + 1) * (len + 2) / 2 && known.len() > 3 {
+        let asc = known.windows(2).all(|w| w[0] < w[1]);
+        format!("ALL({} ranges, inserted {})", known.len(), if asc { "ascending" } else { "descending" })
+    } else {
+        format!("{:?}", known)
+    }
+}
+
+struct Plan {
+    texts_dense: Vec<String>,
+    sparse_maxlen: usize,
+    sets_maxlen: usize,
+    multi_maxlen: usize,
+}
+
+fn plan(tier: Tier) -> Plan {
+    let mut texts: Vec<String> = match tier {
+        Tier::Quick => [0usize, 1, 2, 3, 4, 5, 6, 7, 8, 9, 10].iter().map(|l| base_text(*l)).collect(),
+        Tier::Thorough => (0usize..=12).map(base_text).collect(),
+    };
+    // a run of 12 whitespace characters: the whitespace modifier beyond the search window of 10
+    texts.push(format!("a{}b", " ".repeat(12)));
+    if tier == Tier::Thorough {
+        texts.push("\u{e9}\u{3000} \u{1d11e}x \u{a0}y".to_string()); // multi-byte characters and non-ASCII whitespace
+    }
+    Plan {
+        texts_dense: texts,
+        sparse_maxlen: tier.pick(6, 10),
+        sets_maxlen: tier.pick(9, 10),
+        multi_maxlen: tier.pick(4, 6),
+    }
+}
+
+pub fn run(rep: &Reporter) -> Coverage {
+    let ops = ops();
+    let plan = plan(rep.tier);
+    let evals = AtomicU64::new(0);
+    let cases = AtomicU64::new(0);
+    let nontrivial = AtomicU64::new(0);
+    let skipped = AtomicU64::new(0);
+    let build_fail = AtomicU64::new(0);
+    let mut space = Vec::new();
+
+    let run_refs = |res: &Res, refs: &[Vec<R>], ord_base: u64| {
+        let cands: Vec<ResultTextSelection> = res.known.iter().map(|k| sel(&res.store, *k)).collect();
+        refs.par_iter().enumerate().for_each(|(ri, refr)| {
+            let mut n = 0u64;
+            let mut nt = 0u64;
+            let mut sk = 0u64;
+            for (oi, op) in ops.iter().enumerate() {
+                let ord = ord_base + (ri as u64) * 1000 + oi as u64;
+                let out = check_case(rep, res, &cands, refr, op, ord);
+                n += out.evals;
+                if out.skipped {
+                    sk += 1;
+                } else if !out.expected.is_empty() {
+                    nt += 1;
+                }
+            }
+            evals.fetch_add(n, Ordering::Relaxed);
+            cases.fetch_add(ops.len() as u64, Ordering::Relaxed);
+            nontrivial.fetch_add(nt, Ordering::Relaxed);
+            skipped.fetch_add(sk, Ordering::Relaxed);
+        });
+    };
+
+    for text in &plan.texts_dense {
+        let len = text.chars().count();
+        let ranges = all_ranges(len);
+        let lbase = (len as u64) * 1_000_000_000_000;
+        // (1) dense resources, single references (all bound), two insertion orders
+        let singles: Vec<Vec<R>> = ranges.iter().map(|r| vec![*r]).collect();
+        let mut desc = ranges.clone();
+        desc.reverse();
+        let mut nsets = 0usize;
+        let mut nsparse = 0usize;
+        let mut nmulti = 0usize;
+        for (k, known) in [ranges.clone(), desc].iter().enumerate() {
+            match build(text, known, &[]) {
+                Ok(res) => {
+                    run_refs(&res, &singles, lbase + 500_000_000_000 + (k as u64) * 100_000_000_000);
+                    // (2) dense resource (ascending insertion), every ordered pair of distinct ranges as a set reference
+                    if k == 0 && len <= plan.sets_maxlen {
+                        let mut sets: Vec<Vec<R>> = Vec::new();
+                        for a in &ranges {
+                            for b in &ranges {
+                                if a != b {
+                                    sets.push(vec![*a, *b]);
+                                }
+                            }
+                        }
+                        nsets = sets.len();
+                        run_refs(&res, &sets, lbase + 700_000_000_000);
+                    }
+                }
+                Err(e) => {
+                    build_fail.fetch_add(1, Ordering::Relaxed);
+                    rep.fail("build-failed|dense", lbase, || format!("text={:?}: {}", text, e), || json!({"text": text, "known": known, "multis": [], "ref": [], "op": null}));
+                }
+            }
+        }
+        // (3) sparse resources: {reference, candidate} with a bound reference, {candidate} with an unbound reference
+        if len <= plan.sparse_maxlen {
+            let pairs: Vec<(R, R)> = ranges.iter().flat_map(|a| ranges.iter().filter(move |b| *b != a).map(move |b| (*a, *b))).collect();
+            nsparse = pairs.len() * 2;
+            pairs.par_iter().enumerate().for_each(|(pi, (r, c))| {
+                for bound in [true, false] {
+                    let known: Vec<R> = if bound {
+                        let mut k = vec![*r, *c];
+                        k.sort();
+                        k
+                    } else {
+                        vec![*c]
+                    };
+                    let res = match build(text, &known, &[]) {
+                        Ok(res) => res,
+                        Err(e) => {
+                            build_fail.fetch_add(1, Ordering::Relaxed);
+                            rep.fail("build-failed|sparse", lbase, || format!("text={:?} known={:?}: {}", text, known, e), || json!({"text": text, "known": known, "multis": [], "ref": [], "op": null}));
+                            continue;
+                        }
+                    };
+                    let cands: Vec<ResultTextSelection> = res.known.iter().map(|k| sel(&res.store, *k)).collect();
+                    let refr = vec![*r];
+                    let mut n = 0;
+                    let mut nt = 0;
+                    let mut sk = 0;
+                    for (oi, op) in ops.iter().enumerate() {
+                        let ord = lbase + (bound as u64) * 100_000_000_000 + (pi as u64) * 1000 + oi as u64;
+                        let out = check_case(rep, &res, &cands, &refr, op, ord);
+                        n += out.evals;
+                        if out.skipped {
+                            sk += 1;
+                        } else if !out.expected.is_empty() {
+                            nt += 1;
+                        }
+                    }
+                    evals.fetch_add(n, Ordering::Relaxed);
+                    cases.fetch_add(ops.len() as u64, Ordering::Relaxed);
+                    nontrivial.fetch_add(nt, Ordering::Relaxed);
+                    skipped.fetch_add(sk, Ordering::Relaxed);
+                }
+            });
+        }
+        // (4) annotations with a MultiSelector: annotation entry point against the set entry point
+        if len <= plan.multi_maxlen && len > 0 {
+            let mut multis: Vec<[R; 2]> = Vec::new();
+            for (i, a) in ranges.iter().enumerate() {
+                for b in &ranges[i + 1..] {
+                    multis.push([*a, *b]);
+                }
+            }
+            match build(text, &ranges, &multis) {
+                Ok(res) => {
+                    nmulti = multis.len();
+                    (0..multis.len()).into_par_iter().for_each(|mi| {
+                        let mut n = 0;
+                        for (oi, op) in ops.iter().enumerate() {
+                            n += check_multi_ann(rep, &res, mi, op, lbase + 900_000_000_000 + (mi as u64) * 1000 + oi as u64);
+                        }
+                        evals.fetch_add(n, Ordering::Relaxed);
+                        cases.fetch_add(ops.len() as u64, Ordering::Relaxed);
+                    });
+                }
+                Err(e) => {
+                    build_fail.fetch_add(1, Ordering::Relaxed);
+                    rep.fail("build-failed|multi", lbase, || format!("text={:?}: {}", text, e), || json!({"text": text, "known": ranges, "multis": multis.iter().map(|m| m.to_vec()).collect::<Vec<_>>(), "ref": [], "op": null}));
+                }
+            }
+        }
+        space.push(json!({"text": text, "codepoints": len, "ranges": ranges.len(),
+            "dense_resources": 2, "single_references_per_dense_resource": ranges.len(),
+            "set_references_ordered_pairs": nsets, "sparse_resources": nsparse, "multiselector_annotations": nmulti,
+            "operator_variants": ops.len()}));
+    }
+
+    // concrete samples, recomputed outside the sweep (expected = oracle, got = primary entry point)
+    let mut samples = Vec::new();
+    {
+        let text = base_text(10);
+        let ranges = all_ranges(10);
+        if let Ok(res) = build(&text, &ranges, &[]) {
+            let cands: Vec<ResultTextSelection> = res.known.iter().map(|k| sel(&res.store, *k)).collect();
+            let pick = |rel: Rel, negate: bool, limit: Option<usize>, ws: bool| OpSpec { rel, all: false, negate, limit, ws };
+            let fixed: Vec<(Vec<R>, OpSpec)> = vec![
+                (vec![(2, 4)], pick(Rel::Overlaps, false, None, false)),
+                (vec![(6, 8)], pick(Rel::Overlaps, false, None, false)),
+                (vec![(1, 2)], pick(Rel::Precedes, false, None, true)),
+                (vec![(4, 6)], pick(Rel::Before, false, Some(1), false)),
+                (vec![(0, 3), (2, 5)], pick(Rel::Embeds, false, None, false)),
+                (vec![(7, 9)], pick(Rel::Equals, false, None, false)),
+            ];
+            for (refr, op) in fixed {
+                let exp: Vec<R> = match oracle(&res.store, &refr, &op, &cands) {
+                    Ok(v) => res.known.iter().zip(v.iter()).filter(|(c, t)| **t && (op.rel == Rel::Equals || !refr.contains(c))).map(|(c, _)| *c).collect(),
+                    Err(_) => continue,
+                };
+                let primary = if refr.len() == 1 { Entry::Sel } else { Entry::Set };
+                let got = search(&res.store, &refr, &op, primary, None).unwrap();
+                samples.push(json!({"text": res.text, "known": fmt_known(&res.known, res.len), "ref": refr, "op": op.name(),
+                    "expected": format!("{:?}", exp), "got": format!("{:?}", got)}));
+            }
+        }
+    }
+    let mut cov = Coverage::default();
+    cov.states = cases.load(Ordering::Relaxed);
+    cov.transitions = evals.load(Ordering::Relaxed);
+    cov.traces_validated = cases.load(Ordering::Relaxed);
+    cov.evaluations = evals.load(Ordering::Relaxed);
+    cov.distinct_nontrivial = nontrivial.load(Ordering::Relaxed);
+    cov.rule = "states = (resource, reference, operator variant) cases; transitions = library calls (one related_text search per entry point plus one relation test per known selection); non-trivial = cases in which the oracle expects at least one selection to be returned".into();
+    cov.samples = samples;
+    cov.exhaustive = true;
+    cov.extra.insert("space".into(), Value::Array(space));
+    cov.extra.insert("operator_variants".into(), json!(ops.iter().map(|o| o.name()).collect::<Vec<_>>()));
+    cov.extra.insert("cases_skipped_because_the_relation_test_itself_panics".into(), json!(skipped.load(Ordering::Relaxed)));
+    cov.extra.insert("resources_that_could_not_be_built".into(), json!(build_fail.load(Ordering::Relaxed)));
+    if std::env::var("C06_DEBUG").is_ok() {
+        eprintln!("{}", serde_json::to_string_pretty(&json!({"samples": cov.samples, "extra": cov.extra, "nontrivial": cov.distinct_nontrivial})).unwrap());
+    }
+    cov.assumptions = vec![
+        "the oracle is the library's own relation test reference.test(op, candidate) / set.test(op, candidate); whether that test has the documented meaning is property C13".into(),
+        "Equals{all:true} (the set-level test hits unreachable!()) and any case in which the relation test panics are skipped; InSet/SameRange are not relations of the statement".into(),
+        "for a multi-element reference set and the Equals relation, whether the members of the set themselves are returned is not pinned down and not compared".into(),
+        "textual order is checked as non-decreasing begin position; the order among selections with the same begin is not compared".into(),
+        "an unbound reference is only used when its range is not a known selection (the API returns a bound selection otherwise)".into(),
+        "RELATION constraints in queries are covered by C08, empty reference sets are not covered (undocumented)".into(),
+    ];
+    cov
+}
+
+fn ranges_from(v: &Value) -> Vec<R> {
+    v.as_array()
+        .map(|a| a.iter().filter_map(|p| Some((p[0].as_u64()? as usize, p[1].as_u64()? as usize))).collect())
+        .unwrap_or_default()
+}
+
+/// Re-execute one recorded case without the sweep.
+pub fn replay(rep: &Reporter, case: &Value) {
+    let text = case["text"].as_str().unwrap_or("").to_string();
+    let known = ranges_from(&case["known"]);
+    let refr = ranges_from(&case["ref"]);
+    let multis: Vec<[R; 2]> = case["multis"]
+        .as_array()
+        .map(|a| a.iter().map(|m| ranges_from(m)).filter(|m| m.len() == 2).map(|m| [m[0], m[1]]).collect())
+        .unwrap_or_default();
+    let res = match build(&text, &known, &multis) {
+        Ok(r) => r,
+        Err(e) => {
+            println!("replay C06: resource cannot be built: {}", e);
+            rep.fail("build-failed|replay", 0, || e.clone(), || case.clone());
+            return;
+        }
+    };
+    let op = match OpSpec::from_json(&case["op"]) {
+        Some(o) => o,
+        None => {
+            println!("replay C06: no operator recorded (build failure case); the resource builds now");
+            return;
+        }
+    };
+    println!("replay C06: text={:?} known={} ref={:?} op={}", text, fmt_known(&known, res.len), refr, op.name());
+    if let Some(mi) = case["multi_index"].as_u64() {
+        check_multi_ann(rep, &res, mi as usize, &op, 0);
+        let (id, members) = &res.multis[mi as usize];
+        println!("  annotation {} on {:?}: related_text = {:?}", id, members, search(&res.store, members, &op, Entry::Ann, Some(id.as_str())));
+        println!("  set {:?}: related_text = {:?}", refr, search(&res.store, &refr, &op, Entry::Set, None));
+        return;
+    }
+    if refr.is_empty() {
+        println!("  no reference recorded");
+        return;
+    }
+    let cands: Vec<ResultTextSelection> = res.known.iter().map(|k| sel(&res.store, *k)).collect();
+    let out = check_case(rep, &res, &cands, &refr, &op, 0);
+    if out.skipped {
+        println!("  the relation test itself panics for this case: skipped");
+    } else {
+        println!("  expected (relation test true, in textual order) = {:?}", out.expected);
+        println!("  related_text returned                            = {:?}", out.got);
+    }
+}
